@@ -438,7 +438,7 @@ def d7(ctx, prog, ci):
                 for w in range(W):
                     a[s_, b, p, w] = ratfun.Q.sym(f'a{s_}{b}{p}{w}')
     try:
-        te = symtensor.TensorEval(prog, ci, {'self.accumulators': a})
+        te = symtensor.TensorEval(prog, ci, {'self.accumulators': a, 'self.processed_traces': ratfun.Q.sym('T')})   # T: every trace seen, counted in a bin or not
         got = te.run(f, {})
         if not isinstance(got, np.ndarray) or got.shape != (W, S):
             ctx.fail('C13-D7', key, f'_compute returns an array of shape {getattr(got, "shape", None)} for {W} words and {S} sample(s), expected (words, samples)', f.where())
